@@ -50,5 +50,18 @@ fn main() {
     if p.contains(".SH OPTIONS") || p.contains("zzsecret") {
         println!("C19-REPLAY MISMATCH case=command whose only argument is hidden: OPTIONS section or the hidden flag present");
     }
-    println!("C19-REPLAY DONE {} cases", n + 2);
+    // a hidden option that shares a help heading with a visible one is still omitted
+    for heading in [false, true] {
+        let mut hid = Arg::new("h").long("zzsecret").hide(true).action(ArgAction::SetTrue).help("zzsecret help");
+        let mut vis = Arg::new("v").long("zzshown").action(ArgAction::SetTrue).help("shown help");
+        if heading {
+            hid = hid.help_heading("Tuning");
+            vis = vis.help_heading("Tuning");
+        }
+        let p = page(Command::new("cmdh").arg(hid).arg(vis));
+        if p.contains("zzsecret") || !p.contains("zzshown") {
+            println!("C19-REPLAY MISMATCH case=hidden option {} a visible one: hidden listed={}, visible listed={}", if heading { "sharing a help heading with" } else { "next to" }, p.contains("zzsecret"), p.contains("zzshown"));
+        }
+    }
+    println!("C19-REPLAY DONE {} cases", n + 4);
 }
